@@ -43,7 +43,10 @@ def families(tier):
             {'name': 'integrity', 'params': {'builds': 2, 'chunked': True}}]
     if tier == 'thorough':
         fams += [{'name': 'input', 'params': {'builds': 3}}, {'name': 'integrity', 'params': {'builds': 3}},
-                 {'name': 'readback', 'params': {'builds': 3}}, {'name': 'readback', 'params': {'builds': 3, 'tamper': True}}]
+                 {'name': 'readback', 'params': {'builds': 3}}, {'name': 'readback', 'params': {'builds': 3, 'tamper': True}},
+                 {'name': 'twice', 'params': {'builds': 3}},
+                 {'name': 'input', 'params': {'builds': 3, 'chunked': True, 'nests': True}},
+                 {'name': 'integrity', 'params': {'builds': 3, 'chunked': True, 'nests': True}}]
     return fams
 
 
@@ -70,7 +73,7 @@ def _meta(w, path):
 def harness(eng, fam, P):
     chunked = bool(P.get('chunked'))
     mode = 'HASH' if chunked or fam == 'twice' else MODES[eng.choose('mode', 2)]
-    nest = 'top' if chunked else NESTS[eng.choose('nest', 3)]
+    nest = 'top' if chunked and not P.get('nests') else NESTS[eng.choose('nest', 3)]
     rk = 'read_m' if mode == 'METADATA' else 'read_h'
     w = World(eng, [], fixed={'in': 'D', 'in/x': 'F', 'o': 'D'}, sandbox=getattr(eng, 'sandbox', None))
     w.distinct_mtimes = False
